@@ -40,7 +40,7 @@ STUBS = ['FakeTLS socket returned by a stub SSLContext.wrap_socket (the '
 ASSUMPTIONS = ['PLAIN and LOGIN are the plain-text mechanisms']
 CELL_BUDGET_S = {'quick': 240, 'thorough': 2400}
 SAMPLE_P = 0.02
-MAX_WITNESSES = 6
+MAX_WITNESSES = 10
 
 CREDS = [('user', 'pass'), ('usér中', 'päss wörd'), ('u', '')]
 
@@ -376,7 +376,10 @@ def run_auth(cell):
         lines = [b'AUTH PLAIN ' + b'!' + api.sbytes('garbage', g, 0x21, 0x7e)]
         malformed = True
     elif shape == 'bad-b64-challenge':
-        lines = [b'AUTH LOGIN', b'*' + api.sbytes('garbage', g, 0x21, 0x7e)]
+        # (PLAIN: any <=4 garbage characters are either undecodable or do not
+        #  contain the two NULs of a PLAIN response; with LOGIN CPython's
+        #  lenient decoder would accept them as a user name)
+        lines = [b'AUTH PLAIN', b'*' + api.sbytes('garbage', g, 0x21, 0x7e)]
         malformed = True
     elif shape == 'plain-nonutf8':
         lines = [b'AUTH PLAIN ' + b64(b'\x00\xff\x00\xff')]
